@@ -72,3 +72,62 @@ def srt_read_skeleton(c):
 
 def prove_srt_read_skeleton(ctx):
     ctx.prove("srt.SRTReader.read", srt_read_skeleton, functions=[SRTReader.read, SRTReader._find_text_line], crosscheck=False)
+
+
+# ------------------------------------------------------------------------------------ MicroDVDReader.read
+
+def microdvd_read_skeleton(c):
+    """MicroDVDReader.read as a skeleton: P[n] over documents of one to three cue lines x a frame-rate line (none, the
+    declared rate first, declared again between two cues) x blank lines between cues x `lang`.  `_framestomicro` is a
+    recording stub whose answer names (frame number, rate).
+
+      * cue i carries the answers for ITS OWN start and end frame numbers, start and end never swapped, each converted
+        at the rate in force at that line: the default 25.0 until a `{0}{0}rate` line, from then on the declared rate -
+        for the lines AFTER the declaration only, and a second declaration replaces the first;
+      * a rate line is not a cue; cues come in the order of the lines, under the language asked for, no other exists;
+      * a second document read with the same reader starts at the default rate again."""
+    from pycaption.microdvd import MicroDVDReader as MR
+    n = c.pick("cues", [1, 2, 3])
+    rate = c.pick("rate_line", ["none", "first", "first and again before the last cue"])
+    gap = c.pick("between_lines", ["\n", "\n\n"])
+    lang = c.pick("lang", [None, "de"])
+    frames = [(10 * (k + 1) + k, 10 * (k + 1) + 7) for k in range(n)]
+    lines, rates, cur_rate = [], [], 25.0
+    if rate != "none":
+        lines.append("{0}{0}23.976")
+        cur_rate = 23.976
+    for k, (a_, b_) in enumerate(frames):
+        if rate == "first and again before the last cue" and k == n - 1:
+            lines.append("{0}{0}30")
+            cur_rate = 30.0
+        lines.append(f"{{{a_}}}{{{b_}}}cue {k}|second row")
+        rates.append(cur_rate)
+    doc = gap.join(lines) + "\n"
+    plain = "\n".join(f"{{{a_}}}{{{b_}}}plain {k}" for k, (a_, b_) in enumerate(frames)) + "\n"
+    rd = c.new(MR)
+    log = []
+
+    def stub(interp, fn, a, kw):
+        x = N(fn, a, kw)
+        log.append((x["framenum"], float(x["fps"])))
+        return int(x["framenum"]) * 1000 + int(round(float(x["fps"])))
+    c.interp.contracts["pycaption.microdvd:MicroDVDReader._framestomicro"] = stub
+    kw = {} if lang is None else {"lang": lang}
+    want_lang = lang or "und"
+    val = lambda f_, r_: f_ * 1000 + int(round(r_))
+    r = c.call(MR.read, rd, doc, compare=False, **kw)
+    caps = r.get_captions(want_lang)
+    c.ensure("one_language_the_one_asked_for", r.get_languages() == [want_lang])
+    c.ensure("a_rate_line_is_not_a_cue_and_cues_come_in_order", [x.get_text() for x in caps] == [f"cue {k}\nsecond row" for k in range(n)])
+    c.ensure("cue_i_has_its_own_frames_at_the_rate_in_force_at_its_line",
+             [(x.start, x.end) for x in caps] == [(val(a_, r_), val(b_, r_)) for (a_, b_), r_ in zip(frames, rates)])
+    c.ensure("only_frame_numbers_of_the_document_are_converted", all(f_ in [v for p_ in frames for v in p_] for f_, _ in log))
+    del log[:]
+    r2 = c.call(MR.read, rd, plain, compare=False, **kw)
+    c.ensure("the_next_document_starts_at_the_default_rate",
+             [(x.start, x.end) for x in r2.get_captions(want_lang)] == [(val(a_, 25.0), val(b_, 25.0)) for a_, b_ in frames])
+
+
+def prove_microdvd_read_skeleton(ctx):
+    from pycaption.microdvd import MicroDVDReader as MR
+    ctx.prove("microdvd.MicroDVDReader.read", microdvd_read_skeleton, functions=[MR.read], crosscheck=False)
